@@ -527,9 +527,52 @@ func statetR[T any](sc *scen, i int, v T) fp.StateT[int, T] {
 	}
 }
 
+// statetOut runs the program. A StateT is a value: it is then run a second time, and the second run must end
+// the same way and invoke exactly the same functions as often as the first (a program that drains a one-shot
+// iterator while it RUNS gives its later elements to the second run: functions positioned after the failure
+// are then invoked). The probes are put back to the first run's counts before the verdict looks at them.
 func statetOut[T any](sc *scen, m fp.StateT[int, T]) outcome {
 	r, _ := m.Run(0)
-	return tryOutcome(r)
+	out := tryOutcome(r)
+	if sc.panicAt >= 0 {
+		return out // callback-panic variant: the first run already ended in the panic
+	}
+	calls := make([]int, len(sc.pr))
+	orders := make([]int, len(sc.pr))
+	for i, pr := range sc.pr {
+		if pr != nil {
+			calls[i], orders[i] = pr.Calls, len(pr.Order)
+		}
+	}
+	runs := append([]int{}, sc.runs...)
+	r2, _ := m.Run(0)
+	out2 := tryOutcome(r2)
+	bad := ""
+	if out2.ok != out.ok || out2.id != out.id {
+		bad = fmt.Sprintf("the SAME StateT value run a second time ended differently: first run %v, second run %v", out, out2)
+	}
+	for i, pr := range sc.pr {
+		if pr == nil {
+			continue
+		}
+		// a function called while the program was BUILT (Compose(f1, f2)(0) calls f1 at once) is not called
+		// again by a run; what a second run may never do is call more than the first, or call a function
+		// positioned after the first failing position
+		if delta := pr.Calls - calls[i]; bad == "" && (delta > calls[i] || (sc.first() >= 0 && i > sc.first() && delta != 0)) {
+			bad = fmt.Sprintf("the SAME StateT value run a second time invoked the function at position %d (%c) %d time(s), the first run (and the construction) %d time(s); first failing position %d", i, sc.lay[i], delta, calls[i], sc.first())
+		}
+		pr.Calls, pr.Order = calls[i], pr.Order[:orders[i]]
+	}
+	for i := range sc.runs {
+		if bad == "" && sc.runs[i] > 2*runs[i] {
+			bad = fmt.Sprintf("the SAME StateT value run a second time ran the step of position %d %d time(s), the first run %d time(s)", i, sc.runs[i]-runs[i], runs[i])
+		}
+		sc.runs[i] = runs[i]
+	}
+	if bad != "" {
+		return outcome{ok: out.ok, id: out.id, err: out.err, bad: bad}
+	}
+	return out
 }
 
 // ---- small helpers ------------------------------------------------------------------
